@@ -405,7 +405,7 @@ def gen_infeasible(rng) -> dict:
         hdr += f"  timingresolution {_pick(rng, ['15min', '30min', '60min'])}\n"
     hdr += "}\n"
     res = 'resource r0 "R0" {}\nresource r1 "R1" { workinghours sat 09:00 - 09:00 }\nresource r2 "R2" { limits { dailymax 1h } }\n'
-    kind = rng.randrange(21)
+    kind = rng.randrange(25)
     far = (start + timedelta(days=rng.randrange(30, 4000))).isoformat()
     before = (start - timedelta(days=rng.randrange(1, 400))).isoformat()
     t = ""
@@ -461,8 +461,20 @@ def gen_infeasible(rng) -> dict:
             parts[-1] = parts[-1][:-2] + f" scheduling alap end {(start + timedelta(days=60)).isoformat()} }}"
             hdr = hdr.replace("+1w", "+4m").replace("+2w", "+4m").replace("+3d", "+4m").replace("+1m", "+4m")
         t = "\n".join(parts) + "\n"
-    else:  # precedes cycles and mutual precedes/depends
+    elif kind == 20:  # precedes cycles and mutual precedes/depends
         t = 'task a "A" { effort 2h allocate r0 precedes b }\ntask b "B" { effort 2h allocate r0 precedes a }\ntask c "C" { effort 2h allocate r0 depends a precedes a }\n'
+    elif kind == 21:  # macro that calls itself and carries other content (one typo in a macro name)
+        hdr = 'macro more [ note "x" ${more} ]\n' + hdr
+        t = 'task a "A" { effort 4h allocate r0 ${more} }\n'
+    elif kind == 22:  # mutually recursive macros
+        hdr = "macro ping [ ${pong} ]\nmacro pong [ priority 500 ${ping} ]\n" + hdr
+        t = 'task a "A" { effort 4h allocate r0 ${ping} }\n'
+    elif kind == 23:  # macro that calls itself twice
+        hdr = "macro d [ ${d} ${d} ]\n" + hdr
+        t = 'task a "A" { effort 4h allocate r0 ${d} }\n'
+    else:  # degenerate timing resolution (one flipped digit: 60min -> 00min)
+        hdr = hdr.replace("}\n", f"  timingresolution {_pick(rng, ['00min', '0min', '0h', '0.0h'])}\n}}\n", 1) if "timingresolution" not in hdr else hdr.replace("15min", "00min").replace("30min", "00min").replace("60min", "00min")
+        t = 'task a "A" { effort 4h allocate r0 }\n'
     # Mix with a feasible generated project half of the time so the loop has other work
     if rng.random() < 0.4:
         extra = "\n".join(x for x in base["text"].split("\n") if x.startswith("task ") and x.endswith("}"))
